@@ -23,8 +23,13 @@ class InvariantedClass:
     def _deal_validate(self) -> None:
         if not state.debug:
             return
-        for validator in self._deal_invariants:
-            validator.validate((self,), {})
+        # a validator may call methods of the instance: these are not validated again
+        state.debug = False
+        try:
+            for validator in self._deal_invariants:
+                validator.validate((self,), {})
+        finally:
+            state.debug = True
 
     def _deal_patched_method(self, method: Callable, *args, **kwargs):
         self._deal_validate()
